@@ -75,6 +75,14 @@ static inline double vc_in_f64(void)
   uint64_t b = vc_next_bits();
   double d;
   memcpy(&d, &b, sizeof d);
+  /* second replay attempt for modular counterexamples: the verifier's cell values were chosen against callee
+   * contracts, the real numerical callees may not terminate or may not produce them; keep shapes, integers and
+   * ghost indices of the counterexample and draw generic, well-conditioned cell values instead */
+  if(getenv("VC_REPLAY_NICE")) {
+    static uint64_t st = 0x9E3779B97F4A7C15ull;
+    st = st * 6364136223846793005ull + 1442695040888963407ull;
+    d = (double)((st >> 33) % 200001) / 10000.0 - 10.0 + (double)((st >> 20) % 97) / 1000.0;
+  }
   return d;
 }
 #define VC_ASSUME(c)                                                     \
